@@ -574,7 +574,7 @@ func c03Wordlists(c *Ctx) {
 		}
 		for _, ci := range ana.CallsTo(ctorFn, "builtin.copy") {
 			t := cb.CallTermAt(ci)
-			if _, ok := ana.Match("call<builtin.copy>(slice(faddr<words>(_), 0, none), call<strings.Fields>(p0))", t); ok {
+			if _, ok := ana.Match("call<builtin.copy>(slice(faddr<#1>(_), 0, none), call<strings.Fields>(p0))", t); ok {
 				okCopy = true
 			}
 		}
@@ -585,7 +585,7 @@ func c03Wordlists(c *Ctx) {
 		r.Check(len(cnt) == 1, "C03.wordlists.count-guard", c.P.Pos(ctorFn.Pos()), "constructor panics unless exactly 2048 fields")
 		// accessors
 		for _, m := range []struct{ name, pat string }{
-			{"Word", "load(iaddr(faddr<words>(p0), p1))"},
+			{"Word", "load(iaddr(faddr<#1>(p0), p1))"},
 		} {
 			mf := c.P.Func("pkg/bip39/internal/wordlists", "wordList."+m.name)
 			if mf == nil {
@@ -609,9 +609,9 @@ func c03Wordlists(c *Ctx) {
 			for _, e := range ana.Exits(mf) {
 				if !e.Panic {
 					t := mb.Of(e.Results[0], e.Instr)
-					want := "ext#0(lookup(load(faddr<indexes>(p0)), p1))"
+					want := "ext#0(lookup(load(faddr<#0>(p0)), p1))"
 					if name == "Contains" {
-						want = "ext#1(lookup(load(faddr<indexes>(p0)), p1))"
+						want = "ext#1(lookup(load(faddr<#0>(p0)), p1))"
 					}
 					_, ok := ana.Match(want, t)
 					r.Check(ok, "C03.wordlists.accessor-"+name, c.ipos(e.Instr), "%s(word) reads indexes[word]: %s", name, t)
